@@ -108,6 +108,7 @@ func (ex *Exec) uncontractedExternal(st *State, in ssa.CallInstruction, callee *
 	}
 	fc.noteAssumption("external call without contract treated as pure with arbitrary result: " + name)
 	ex.setResults(st, in, callee.Signature.Results(), "r_"+name)
+	ex.flushInv(st)
 }
 
 func (fc *FuncCtx) noteAssumption(s string) {
@@ -120,6 +121,17 @@ func (fc *FuncCtx) noteAssumption(s string) {
 }
 
 // setResults binds fresh result values for a call.
+// pendingInv: call results whose object invariants are assumed once the callee's
+// postconditions (and the post-call heap) are in place.
+var pendingInv []Val
+
+func (ex *Exec) flushInv(st *State) {
+	for _, v := range pendingInv {
+		st.assume(ex.fc.objInvFact(st.heap, st.alloc(), v.T, v.Typ))
+	}
+	pendingInv = nil
+}
+
 func (ex *Exec) setResults(st *State, in ssa.CallInstruction, res *types.Tuple, prefix string) []Val {
 	fc := ex.fc
 	var vals []Val
@@ -129,6 +141,7 @@ func (ex *Exec) setResults(st *State, in ssa.CallInstruction, res *types.Tuple, 
 		st.assume(fc.wellFormed(v, t, st.alloc()))
 		st.assume(fc.typeInvariant(v, t))
 		vals = append(vals, Val{T: v, Typ: t})
+		pendingInv = append(pendingInv, Val{T: v, Typ: t})
 	}
 	if v := in.Value(); v != nil {
 		switch len(vals) {
@@ -225,7 +238,7 @@ func (ex *Exec) contractCall(st *State, in ssa.CallInstruction, callee *ssa.Func
 			fc.emit(st, "dec", fc.siteFor(in, "call:"+name), "recursion measure decreases at call of "+name+" at "+ex.posOf(in), []string{"TERM"}, lexLess(cm, rm))
 		}
 	}
-	if root.contract != nil && root.contract.NoPanic && !c.NoPanic {
+	if root.contract != nil && root.contract.NoPanic && !c.NoPanic && !ex.hasDefers(st) {
 		fc.emit(st, "panic", fc.siteFor(in, "call:"+name), "callee "+name+" is not proved panic-free at "+ex.posOf(in), root.contract.PanicTags, TFalse)
 	}
 	// frame: callee's assigns must be inside the caller's assigns
@@ -271,10 +284,12 @@ func (ex *Exec) contractCall(st *State, in ssa.CallInstruction, callee *ssa.Func
 	for _, e := range c.Ensures {
 		st.assume(post.evalBool(e.E))
 	}
+	ex.flushInv(st)
 	if pst != nil {
 		// exceptional exit of the callee observed by a deferred function
 		ex.havocHeap(pst, "panic:"+name, locs, c.AssignAll, !c.NoAlloc)
 		pst.panicking = true
+		pst.escapeSite = in
 		pst.path = append(pst.path, "panic-in:"+name)
 		if done := ex.unwind(pst); !done {
 			ex.run(pst)
@@ -495,6 +510,7 @@ func (ex *Exec) contractCallNamed(st *State, in ssa.CallInstruction, name string
 	for _, e := range c.Ensures {
 		st.assume(post.evalBool(e.E))
 	}
+	ex.flushInv(st)
 }
 
 // dynamicCall dispatches a call through a function value using the caller's dispatch clause.
